@@ -102,6 +102,9 @@ def write_script(path, mode, writes, ending):
         src.append("  let r = write(f, %s); if is_error(r) { println(\"w=E\"); } else { println(\"w={}\", r); }\n" % blob_expr(w))
     if ending in ("flush", "flushexit"):
         src.append("  flush(f);\n")
+        # "contain exactly the bytes written once flushed": the file is looked at while the program is still running
+        if mode in ("w", "a", "x"):
+            src.append("  let cp_ = open(\"%s.copy\", \"w\"); write(cp_, read(open(\"%s\"))); flush(cp_);\n" % (path, path))
     src.append("  println(\"done\");\n")
     if ending in ("exit", "flushexit"):
         src.append("  exit(0);\n")
@@ -255,6 +258,9 @@ def run_case(exe, scratch, idx, line):
             if os.path.exists(target):
                 data = open(target, "rb").read()
                 ftok = "file=" + (data.hex() or "-")
+                if os.path.exists(target + ".copy") and open(target + ".copy", "rb").read() != data:
+                    # what the file held right after flush(f) is not what was written
+                    ftok = "file=AFTER-FLUSH:" + (open(target + ".copy", "rb").read().hex() or "-")
             else:
                 ftok = "file=missing"
             return ";".join([opened, "w=" + (".".join(ws_out) or "-"), ftok])
@@ -358,7 +364,9 @@ def utf8_text(rng, n):
     size = 0
     while size < n:
         r = rng.random()
-        if r < 0.08:
+        if r < 0.02:
+            ch = rng.choice(["\r\n", "\r", "\n\r", "\r\r\n"])
+        elif r < 0.08:
             ch = "\n"
         elif r < 0.8:
             ch = chr(rng.randint(32, 126))
@@ -423,6 +431,11 @@ def cases(ctx):
     fread("file", big, ["L", "R", "R"], "-", "file-fixed")
     fread("file", big, ["R"], "-", "file-fixed")
     fread("file", big, ["R10", "R", "R"], "-", "file-fixed")
+    # line ends of every kind: what read_line returns is a piece of the content, CR included
+    crlf = b"ab\r\ncd\r\n\r\nef\rgh\n\rij\r\n"
+    for calls_ in (["L", "L", "L", "L", "L", "R"], ["L", "R5", "L", "S"], ["R3", "L", "L", "R"], ["L"] * 8):
+        fread("file", crlf, calls_, "-", "crlf")
+        fread("pipe", crlf, calls_, "3.4.5", "crlf")
     fread("file", b"hello\nworld\n", ["L", "L", "L", "R"], "-", "file-fixed")
     fread("file", b"", ["R", "L", "S", "R0"], "-", "file-fixed")
     fread("file", "héllo wörld\nλ\n".encode(), ["S", "R"], "-", "file-fixed")
